@@ -241,6 +241,14 @@ pub async fn observe(ds: &Dataset) -> Obs {
             )
         })
         .collect();
+    // error texts may quote object paths: make them independent of where the table lives (C42 compares across locations)
+    let u = ds.uri().to_string();
+    let u2 = u.trim_start_matches('/').to_string();
+    for v in comp.values_mut() {
+        if v.contains(&u2) {
+            *v = v.replace(&u, "<uri>").replace(&u2, "<uri>");
+        }
+    }
     Obs { version, comp, nrows, keys, rowids, frag_seqs, index_uuids }
 }
 
